@@ -257,6 +257,48 @@ func runSched(name string) *result {
 	return r
 }
 
+// runBusy: all workers are inside a task when Shutdown is called; the tasks then read IsRunning and submit.
+func runBusy(r *result, wd *world, c runCfg, hung func(string) *result) *result {
+	for round := 0; round < c.rounds; round++ {
+		gate := make(chan struct{})
+		first := wd.calls
+		for i := 0; i < c.w; i++ {
+			wd.submit(body{gate: gate, gateFirst: true, kids: []body{{}}})
+		}
+		if !waitFor(bound, func() bool {
+			n := 0
+			for i := first; i < first+c.w; i++ {
+				n += int(wd.runs[i].Load())
+			}
+
+			return n == c.w
+		}) {
+			return hung("tasks-start")
+		}
+		sd := make(chan bool, 1)
+		go func() { sd <- wd.shutdown(bound) }()
+		time.Sleep(20 * time.Millisecond)
+		close(gate)
+		if !<-sd {
+			return hung("shutdown")
+		}
+		if !wd.waitComplete(bound) {
+			return hung("complete")
+		}
+		if round < c.rounds-1 && !wd.start(bound) {
+			return hung("start")
+		}
+	}
+	if !wd.waitZero(shortBound) {
+		return hung("zero")
+	}
+	r.emitTrace(wd, true)
+	r.perTaskOracle(wd, true)
+	r.nontriv = c.String()
+
+	return r
+}
+
 func waitFor(d time.Duration, cond func() bool) bool {
 	deadline := time.Now().Add(d)
 	for !cond() {
@@ -298,7 +340,7 @@ func parseRun(f []string) (c runCfg, ok bool) {
 	c.rounds, _ = strconv.Atoi(f[7])
 	c.seed, _ = strconv.ParseUint(f[8], 10, 64)
 
-	return c, c.w >= 1 && c.w <= 64 && c.subs <= 64 && c.tasks <= 4096 && c.depth <= 6 && c.rounds >= 1 && c.rounds <= 16
+	return c, c.w >= 1 && c.w <= 4096 && c.subs <= 64 && c.tasks <= 4096 && c.depth <= 6 && c.rounds >= 1 && c.rounds <= 16
 }
 
 func genBody(rng *hx.Rng, depth int, gate chan struct{}) body {
@@ -322,7 +364,18 @@ func runCase(c runCfg) *result {
 	r := newResult()
 	r.lines = append(r.lines, [2]string{c.String(), "ok"})
 	rng := hx.NewRng(c.seed)
-	wd := newWorld(c.w, c.cancel)
+	var wd *world
+	if strings.HasPrefix(c.mode, "gpending-") {
+		wd = newGroupWorld(c.w, strings.TrimPrefix(c.mode, "gpending-"))
+		if wd.cancel != c.cancel {
+			r.lines = append(r.lines, [2]string{"bad-cancel-flag", "bad-descriptor"})
+
+			return r
+		}
+		c.mode = "pending"
+	} else {
+		wd = newWorld(c.w, c.cancel)
+	}
 	r.count("mode:" + c.mode)
 	r.count(fmt.Sprintf("workers:%d", c.w))
 	r.count(fmt.Sprintf("cancel:%v", c.cancel))
@@ -335,6 +388,9 @@ func runCase(c runCfg) *result {
 	}
 	if !wd.start(bound) {
 		return hung("start")
+	}
+	if c.mode == "busy" {
+		return runBusy(r, wd, c, hung)
 	}
 	for round := 0; round < c.rounds; round++ {
 		var gate chan struct{}
